@@ -17,12 +17,14 @@ open GrpcModel.Driver GrpcModel.Retry GrpcModel.RetryLoop GrpcModel.PickDone
 open GrpcModel.Driver.S_shouldretry (getKV)
 
 def parsePick (s : String) : Option PickBeh :=
+  if s = "notready!" then some .notreadyCancel else if s = "nosc!" then some .noscCancel else
   if s = "ok" then some .ok else if s = "oknd" then some .oknd else if s = "notready" then some .notready
   else if s = "nosc" then some .nosc else if s = "hang" then some .hang
   else if s.startsWith "drop" then ((s.drop 4).toString.toNat?).map .drop else none
 
 def showPick : PickBeh → String
   | .ok => "ok" | .oknd => "oknd" | .notready => "notready" | .nosc => "nosc" | .hang => "hang" | .drop c => s!"drop{c}"
+  | .notreadyCancel => "notready!" | .noscCancel => "nosc!"
 
 def showPEv : PEv → String
   | .pick id b => s!"P{id}:{showPick b}"
@@ -57,7 +59,7 @@ structure PS where
   mon : PMon := {}
 
 def hasDoneKind : PickBeh → Bool
-  | .ok => true | .notready => true | _ => false
+  | .ok => true | .notready => true | .notreadyCancel => true | _ => false
 
 /-- C23 on the implementation's pick/Done events of one op; `ended` = the RPC is over after this op -/
 def monitorPk (m : PMon) (evs : List PEv) (ended : Bool) : PMon × String := Id.run do
@@ -70,7 +72,7 @@ def monitorPk (m : PMon) (evs : List PEv) (ended : Bool) : PMon × String := Id.
       if let some w := expectDone then verdict := s!"VIOL Done of the not-ready pick {w} did not run before the next pick"
       if mon.picks.any (fun p => p.1 == id) then verdict := s!"VIOL pick id {id} reported twice"
       mon := { mon with picks := mon.picks ++ [(id, hasDoneKind b, 0)] }
-      expectDone := if b == .notready then some id else none
+      expectDone := if b == .notready || b == .notreadyCancel then some id else none
     | .done id _ =>
       match mon.picks.find? (fun p => p.1 == id) with
       | none => verdict := s!"VIOL Done called for an unknown pick {id}"
@@ -94,7 +96,12 @@ def step (s : PS) (fs : List String) (impl : String) : PS × String × String :=
     let picks := getKV kvs "picks"
     let script : Option (List PickBeh) := if picks = "-" ∨ picks = "" then some [] else (picks.splitOn ",").mapM parsePick
     match script with
-    | some sc => ({ inner := inner, ps := { script := sc } }, line, "-")
+    | some sc =>
+      -- a pick that ends with the context cancelled fails that stream creation with CANCELLED
+      let inner := match inner.cfg with
+        | some c => { inner with cfg := some { c with st := { c.st with nsScript := mergeNS 64 sc c.st.nsScript } } }
+        | none => inner
+      ({ inner := inner, ps := { script := sc } }, line, "-")
     | none => (s, "bad-op", "-")
   | op :: _ =>
     match s.inner.cfg with
@@ -129,7 +136,7 @@ def step (s : PS) (fs : List String) (impl : String) : PS × String × String :=
           let (mon, v) := match ipk with | some e => monitorPk s.mon e true | none => (s.mon, "-")
           ({ s with ps := { s.ps with script := rest, nextId := n' }, dead := true, mon := mon },
            s!"err {dropStatus code} t=0 ev=- pk=" ++ showPEvs pe, v)
-        | .picked _ _ =>
+        | _ =>
           let (inner, line, _) := S_retry.step s.inner fs impl
           let mb : Int := match fs with | [_, b] => if b = "d" then 262144 else (b.toInt?.getD 262144) | _ => 262144
           let st0 := { c.st with maxBuf := mb }
